@@ -540,6 +540,28 @@ def _taint_rules(p, led, rib, tr):
     else:
         ok = False
         led.fail("C12-R2", key, where(tr, tr.node), "no path of the include substitution returns the explicit `[Unknown template: name]` marker")
+    # "registered" is decided by membership / a None test, not by the truth value of the template found: a template record
+    # that defines __len__ / __bool__ (an empty template is falsy) would be reported as unknown by a truthiness test
+    mr_ = next((ci for ci in p.classes.get("mRNA", []) if ci.module is rib.module), None)
+    falsy_hooks = [h for h in ("__len__", "__bool__") if mr_ is not None and h in mr_.methods]
+    if falsy_hooks:
+        for m_ in rib.methods.values():
+            looked = {}
+            for n_ in ast.walk(m_.node):
+                if isinstance(n_, ast.Assign) and len(n_.targets) == 1 and isinstance(n_.targets[0], ast.Name):
+                    v_ = n_.value
+                    if (isinstance(v_, ast.Call) and isinstance(v_.func, ast.Attribute) and v_.func.attr == "get" and is_self_attr(v_.func.value, "templates")) or \
+                            (isinstance(v_, ast.Subscript) and is_self_attr(v_.value, "templates")):
+                        looked[n_.targets[0].id] = n_
+            for n_ in ast.walk(m_.node):
+                if isinstance(n_, (ast.If, ast.IfExp)):
+                    t_ = n_.test.operand if isinstance(n_.test, ast.UnaryOp) and isinstance(n_.test.op, ast.Not) else n_.test
+                    if isinstance(t_, ast.Name) and t_.id in looked:
+                        ok = False
+                        led.fail("C12-R2", f"{m_.qual} ▸ `{short(n_.test, 40)}`", where(m_, n_),
+                                 f"whether an include is registered is decided by the truth value of the template found, and `{mr_.name}` defines `{falsy_hooks[0]}`: a registered template that is empty is "
+                                 "rendered as `[Unknown template: …]` instead of its (empty) expansion",
+                                 witness="register an empty template 'footer'; 'a{{>footer}}b' renders 'a[Unknown template: footer]b'")
     esc = sorted({x for r in allruns for x in r["escapes"]})
     unesc = sorted({x for r in allruns for x in r["unescapes"]})
     led.extra["escape_rewrites_seen"] = [repr(x) for x in esc]
